@@ -275,6 +275,7 @@ class FamilyResult:
         self.harness_errors = []
         self.samples = []
         self.kinds = {}
+        self.outcomes = {}
 
 
 def run_family(pid, fam, n, seed, corpus_ops=()):
@@ -298,6 +299,9 @@ def run_family(pid, fam, n, seed, corpus_ops=()):
             fr.unmodelled += 1
             continue
         ci, cm = reconcile(canon(i), canon(m))
+        oc = " ".join(ci.split(" ")[:2]) if ci.split(" ")[0].endswith("=err") or ci.startswith("err") else ci.split(" ")[0]
+        oc = re.sub(r"=[0-9a-f]{8,}.*", "=<hex>", oc)[:40]
+        fr.outcomes[oc] = fr.outcomes.get(oc, 0) + 1
         if not TRIVIAL.match(cm):
             fr.nontrivial.add(hashlib.sha1(op.encode()).hexdigest())
         if ci != cm:
@@ -480,7 +484,7 @@ def run_property(pid, tier, seed):
         "property_id": pid, "tier": tier, "seed": seed, "level": "proof",
         "coverage": {
             "obligations": max(obligations, 0), "discharged": max(discharged, 0) if not broken else 0,
-            "checker_cmd": "cd lean && lake build CoseProofs.Props.%s && lake env lean <#audit %s> (axioms per theorem below)" % (pid, pid),
+            "checker_cmd": "cd lean && lake build %s && lake env lean <import those; #audit %s> (theorems and their axioms listed below)" % (" ".join(P.modules_for(pid)), pid),
             "trusted_base": P.TRUSTED_BASE,
             "theorems": [{"name": n_, "axioms": axs} for n_, axs in thms],
             "evaluations": evaluations, "distinct_nontrivial": nontrivial,
@@ -488,7 +492,8 @@ def run_property(pid, tier, seed):
             "samples": samples,
             "families": {fr.fam: {"evaluations": fr.evaluations, "unmodelled": fr.unmodelled,
                                   "nontrivial": len(fr.nontrivial), "disagreements": len(fr.disagreements),
-                                  "kinds": fr.kinds} for fr in results},
+                                  "kinds": fr.kinds,
+                                  "outcomes": dict(sorted(fr.outcomes.items(), key=lambda kv: -kv[1])[:12])} for fr in results},
             "real_sweeps": [{k: v for k, v in r.items() if k != "failures"} | {"failures": len(r["failures"])} for r in real_reports],
             "unmodelled": unmodelled,
             "facts_regenerated": facts_ok,
